@@ -220,4 +220,95 @@ theorem _parse_project_urls_eq_model (l : List Str) :
       simp only [hc', Bool.false_eq_true, if_false, dict_setitem_dictOf _ _ _ hc', ok_bind, pure_ok]
       exact ⟨_, rfl, rfl⟩
 
+namespace MetaP
+
+/-! ### what `do` notation leaves behind for mutable locals across `try` (a `StateT` layer) and for `return` inside
+`try` (an `ExceptT` layer) -/
+
+@[simp] theorem stateT_pure_apply {σ α : Type} (a : α) (s : σ) : (pure a : StateT σ M α) s = .ok (a, s) := by rfl
+@[simp] theorem earlyReturn_eq {ρ α : Type} (r : ρ) :
+    (EarlyReturnT.return r : EarlyReturnT ρ M α) = (Except.ok (Except.error r) : M (Except ρ α)) := by rfl
+@[simp] theorem runK_ok {ρ α β : Type} (a : α) (ret : ρ → β) (k : α → β) : EarlyReturn.runK (Except.ok a) ret k = k a := by rfl
+@[simp] theorem runK_error {ρ α β : Type} (r : ρ) (ret : ρ → β) (k : α → β) : EarlyReturn.runK (Except.error r) ret k = ret r := by
+  rfl
+@[simp] theorem exceptT_run_pure {ρ α : Type} (a : α) :
+    ExceptT.run (pure a : ExceptT ρ M α) = (Except.ok (Except.ok a) : M (Except ρ α)) := by rfl
+
+/-! ### the oracle calls -/
+
+theorem ext_name (o : Meta.Oracle) (s : Str) :
+    ext_call (extOf o) "utils.canonicalize_name" [.str s, .bool true] = ofVerdict "InvalidName" .str (o.name s) := by rfl
+theorem ext_version (o : Meta.Oracle) (s : Str) :
+    ext_call (extOf o) "version_module.parse" [.str s] = ofVerdict "InvalidVersion" (opaqueObj "Version") (o.version s) := by
+  rfl
+theorem ext_spec (o : Meta.Oracle) (s : Str) :
+    ext_call (extOf o) "specifiers.SpecifierSet" [.str s, .none] =
+      ofVerdict "InvalidSpecifier" (opaqueObj "SpecifierSet") (o.spec s) := by rfl
+theorem ext_req (o : Meta.Oracle) (s : Str) :
+    ext_call (extOf o) "requirements.Requirement" [.str s] =
+      ofVerdict "InvalidRequirement" (opaqueObj "Requirement") (o.req s) := by rfl
+theorem ext_lic (o : Meta.Oracle) (s : Str) :
+    ext_call (extOf o) "licenses.canonicalize_license_expression" [.str s] =
+      ofVerdict "InvalidLicenseExpression" .str (o.lic s) := by rfl
+theorem ext_lower (o : Meta.Oracle) (s : Str) :
+    ext_call (extOf o) "str.lower" [.str s] = .ok (.str (o.lower s)) := by rfl
+
+theorem versions_eq : [ofString "1.0", ofString "1.1", ofString "1.2", ofString "2.1", ofString "2.2", ofString "2.3",
+    ofString "2.4"] = Gen.Meta.validVersions := by decide
+
+/-- `x in [s1, s2, …]` for strings -/
+theorem any_eq_strs (l : List Str) (s : Str) : (l.map PyVal.str).any (PyVal.eq (.str s)) = l.contains s := by
+  induction l with
+  | nil => rfl
+  | cons x xs ih => simp only [List.map_cons, List.any_cons, eq_str, ih, List.contains_cons]
+
+theorem contains_strs (l : List Str) (s : Str) : PyRt.contains (.list (l.map .str)) (.str s) = .ok (l.contains s) := by
+  simp only [PyRt.contains, pure_ok, any_eq_strs]
+
+end MetaP
+open MetaP
+
+theorem _Validator._process_metadata_version_eq_model (self : PyVal) (fld s : Str) :
+    Gen.PySrc._Validator._process_metadata_version self (.str s) =
+      ofRes ofVal (Meta.procMetadataVersion fld (.str s)) := by
+  unfold Gen.PySrc._Validator._process_metadata_version Meta.procMetadataVersion
+  have h : ∀ l : List Str, l = Gen.Meta.validVersions →
+      PyRt.contains (.list (l.map .str)) (.str s) = .ok (Gen.Meta.validVersions.contains s) := by
+    intro l hl; rw [hl]; exact contains_strs _ s
+  have h' := h _ versions_eq
+  simp only [List.map_cons, List.map_nil] at h'
+  simp only [h', ok_bind]
+  cases hc : Gen.Meta.validVersions.contains s with
+  | false => simp [ofRes, excName]
+  | true => simp [ofRes, ofVal]
+
+theorem _Validator._process_name_eq_model (o : Meta.Oracle) (self : PyVal) (fld s : Str)
+    (hesc : ∀ cls, o.name s = .esc cls → PyRt.catches "InvalidName" (toStringLossy cls) = false) :
+    Gen.PySrc._Validator._process_name (extOf o) self (.str s) = ofRes ofVal (Meta.procName o fld (.str s)) := by
+  unfold Gen.PySrc._Validator._process_name Meta.procName
+  simp only [truthy_str, ext_name]
+  cases hs : s.isEmpty with
+  | true => simp [ofRes, excName]
+  | false =>
+    have c1 : catches "InvalidName" "InvalidName" = true := by decide
+    cases hv : o.name s with
+    | ok c => simp [ofVerdict, Meta.oneVerdict, ofRes, ofVal]
+    | bad => simp [ofVerdict, Meta.oneVerdict, ofRes, excName, c1]
+    | esc cls => simp [ofVerdict, Meta.oneVerdict, ofRes, excName, hesc cls hv]
+
+theorem _Validator._process_version_eq_model (o : Meta.Oracle) (self : PyVal) (fld s : Str)
+    (hesc : ∀ cls, o.version s = .esc cls → PyRt.catches "InvalidVersion" (toStringLossy cls) = false) :
+    Gen.PySrc._Validator._process_version (extOf o) self (.str s) =
+      ofRes (ofEnriched "Version") (Meta.procVersion o fld (.str s)) := by
+  unfold Gen.PySrc._Validator._process_version Meta.procVersion
+  simp only [truthy_str, ext_version]
+  cases hs : s.isEmpty with
+  | true => simp [ofRes, excName]
+  | false =>
+    have c1 : catches "InvalidVersion" "InvalidVersion" = true := by decide
+    cases hv : o.version s with
+    | ok c => simp [ofVerdict, Meta.oneVerdict, ofRes, ofEnriched]
+    | bad => simp [ofVerdict, Meta.oneVerdict, ofRes, excName, c1]
+    | esc cls => simp [ofVerdict, Meta.oneVerdict, ofRes, excName, hesc cls hv]
+
 end Src
